@@ -517,10 +517,12 @@ def e3_specs(tier, variants=True):
     shapes = e3_shapes(tier)
     for si, sh in enumerate(shapes):
         for nmg in range(len(NAMINGS)):
+            if tier != "quick" and nmg > 0 and len(sh[0]) > 1:
+                continue  # thorough: the second naming for the shapes with <= 1 intermediate (and for every variant below)
             out.append((f"E3|{si:05d}|n{nmg}|def|flat|-", shape_spec(sh, nmg)))
     if variants:
         small = [(si, sh) for si, sh in enumerate(shapes)
-                 if all(len(d) <= 1 for d in sh[0]) and len(sh[1]) <= 1 and len(sh[2]) <= 1 and len(sh[0]) <= (2 if tier == "quick" else 3)]
+                 if all(len(d) <= 1 for d in sh[0]) and len(sh[1]) <= 1 and len(sh[2]) <= 1 and len(sh[0]) <= 2]
         if tier == "quick":
             # quick: zero/one-intermediate shapes, and two-intermediate *chains* (i2 defined from i1) read through x, p or i2
             small = [(si, sh) for si, sh in small
